@@ -238,8 +238,10 @@ def run_direct(ctx, cases, want_samples=True):
         if not p:
             rep.count('oracle-skipped:empty-payload')
             continue
-        if any(int(s[-2:], 16) < 0x10 for s in im[1] if len(s) > 2 and s[-3] == '*' and all(ch in '0123456789ABCDEF' for ch in s[-2:])):
-            rep.count('sentence-checksum<0x10')
+        # what the harness's own framing (tools/ais.py) expects: used only to describe the inputs
+        rep.count(f'expect/fragments:{min((len(p) + 59) // 60, 10)}')
+        if any(int(s[-2:], 16) < 0x10 for s in ais.frame(p, f, talker=t, channel=c)):
+            rep.count('expect/sentence-checksum<0x10')
         if replies is not None:
             judge(rep, 'ais_to_nmea_0183', t, c, p, f, im[1], replies[2 * i + 1], ais.dearmor(p, f), False, replay, label)
         if want_samples and i % 1201 == 7:
@@ -498,11 +500,13 @@ def run_messages(ctx, cases, want_samples=True):
 # ---------------------------------------------------------------------------------------------------
 def self_check(ctx):
     d = ctx.rep.dist
-    need = ['boundary', 'checksum<0x10', 'sentence-checksum<0x10', 'talker-arg', 'channel-arg', 'direct/exception:ValueError',
-            'direct/exception:TypeError', 'encode_dict/exception:ValueError', 'encode_dict/exception:TypeError',
-            'direct/fragments:1', 'direct/fragments:2', 'direct/fragments:3', 'direct/fragments:4', 'direct/fragments:9',
-            'encode_dict/fragments:1', 'encode_dict/fragments:2', 'encode_dict/fragments:3', 'encode_msg/fragments:3',
-            'payload-chars:180']
+    # facts about the generated INPUTS only (never about what the implementation answered)
+    need = ['len<=200', 'boundary', 'len<=540', 'checksum<0x10', 'expect/sentence-checksum<0x10', 'talker-arg', 'channel-arg',
+            'payload-not-armored', 'fill-out-of-range'] + [f'expect/fragments:{k}' for k in range(1, 10)] \
+        + [f'encode_dict/{k}/key:{v}' for k in ('decoded', 'synthetic', 'synthetic-full-width')
+           for v in ('type', 'msg_type', 'both-equal')] \
+        + ['encode_msg/decoded', 'encode_msg/synthetic', 'encode_msg/synthetic-full-width', 'encode_dict/bad-talker-or-channel',
+           'encode_msg/bad-talker-or-channel']
     missing = [k for k in need if not d.get(k)]
     if missing:
         ctx.rep.internal(f'C09 harness self-check: the generators never produced {missing}')
